@@ -161,6 +161,20 @@ CLAIMED = {
         "trusted: TLC; the right-continuous convention for the discontinuous third derivative at knots",
         "DESIGN.md 3 C14",
     ),
+    "C15": (
+        "spec/Heap.tla, spec/Trace_Heap.tla",
+        "heap-of-cells model in which every public call is an action with an explicit write set; TLC checks the frame law and the independence of "
+        "accessor copies and deep copies over all histories up to the bound and emits every history, each replayed on real grids, cubes, images, "
+        "flow fields and transforms (spec->code); the write set observed for every call of the functional API, the losses and every deepali-defined "
+        "method of the object classes is recorded and validated against Trace_Heap (code->spec)",
+        "all histories of {accessor copy, deep copy, underscore mutation of either side, observation} up to length 4 (5 thorough) on 8 object kinds; "
+        "all 152 public functions of core.functional / losses.functional for which an argument recipe exists (listed otherwise) in 2-D/3-D with plain, "
+        "non-contiguous, requires_grad (and integer) arguments plus each optional parameter alone and all pairs of boolean options; ~1900 "
+        "(class, method) pairs of Grid, Cube, Image(Batch), FlowField(s) and 20 transform kinds with full receiver projection and behaviour probe",
+        "trusted: TLC; receiver projection (state_dict, grids, axes, condition, disp() probe); dropped derived buffers count as cleared caches; "
+        "argument recipes by parameter name, so unusual argument forms are not reached",
+        "DESIGN.md 3 C15",
+    ),
     "C16": (
         "spec/Loss.tla, spec/MC_Loss.tla, spec/Trace_Loss.tla",
         "layer 1: exact rational values of pointwise losses (mask-aware mean, normalisation), global NCC, Dice and Tversky on small integer "
